@@ -1,6 +1,7 @@
 import HdVerif.Proofs.PixelFlags
 import HdVerif.Proofs.PixelPipeline
 import HdVerif.Generated.T6g
+import HdVerif.Generated.T6i
 /-! # C06  Pixel transforms follow the DICOM pipeline and the tri-state flags
 
 Property theorems only.  Definitions under `HdVerif.Gen` are regenerated from /repo's current source on
@@ -648,6 +649,33 @@ theorem single_sites_use_the_frame :
       (s.fn = "_Image.get_frames" → s.kws.contains ("frame_index", "first_frame_index") = true) ∧ s.guards = [] := by
   decide +kernel
 
+/-- **Where `Present.inverse` comes from** (translated, T6i): with `apply_presentation_lut` the presentation stage
+inverts iff PresentationLUTShape is INVERSE, or it is absent and the image is MONOCHROME1 (an explicit IDENTITY on a
+MONOCHROME1 image does not invert); without the flag never. -/
+theorem presentation_inverse_spec (applyPres hasShape : Bool) (shape photometric : String) :
+    presentationInverts applyPres hasShape shape photometric =
+      .ok (applyPres && (if hasShape then shape == "INVERSE" else photometric == "MONOCHROME1")) := by
+  unfold presentationInverts
+  cases applyPres <;> cases hasShape <;> simp [beq_iff_eq]
+  all_goals (by_cases hp : photometric = "MONOCHROME1" <;> simp [hp])
+
+/-- **The inverted sigmoid in any field.**  `fold_sigmoid_inverted` / `folded_eq_ref` take `exp : Rat → Rat`, which no
+real exponential is; the identity they rest on is purely algebraic and holds in every field `K` (e.g. the reals with
+`e = Real.exp ∘ cast`): if `e (-a) * e a = 1` and `1 + e a` does not vanish, the value the library computes for an
+inverted SIGMOID window, `lo + (hi - lo) / (1 + e (-a))`, is the standard's `hi + lo - (lo + (hi - lo) / (1 + e a))`. -/
+theorem sigmoid_inverted_in_any_field {K : Type} [Field K] (e : K → K) (a lo hi : K)
+    (h : e (-a) * e a = 1) (h1 : 1 + e a ≠ 0) :
+    lo + (hi - lo) / (1 + e (-a)) = hi + lo - (lo + (hi - lo) / (1 + e a)) := by
+  have hea : e a ≠ 0 := by
+    intro h0; rw [h0, mul_zero] at h; exact zero_ne_one h
+  have hinv : e (-a) = (e a)⁻¹ := eq_inv_of_mul_eq_one_left h
+  have h2' : e a + 1 ≠ 0 := by rwa [add_comm] at h1
+  have key : (1 + (e a)⁻¹) = (e a + 1) / e a := by field_simp
+  rw [hinv, key, div_div_eq_mul_div]
+  rw [add_comm 1 (e a)] at *
+  field_simp
+  ring
+
 /-! ## Quantifier: output dtype -/
 
 /-- **Output dtype.**  When `_check_rescale_dtype` accepts an integer output type, every value the rescale
@@ -841,12 +869,33 @@ theorem shared_over_image {α} (pl : Placed α) (f : Nat) (a : α) (h : AbsentAt
 theorem image_level_last {α} (pl : Placed α) (f : Nat) (h : AbsentAt pl f) (hs : pl.shared = none) :
     pl.find f = pl.image.map (·, true) := find_image pl f h hs
 
+/-- **VOI LUTs follow the same placement rule.**  A VOI LUT sequence given for the frame itself (inside the frame's
+FrameVOILUTSequence item) is the VOI information used - over shared and image-level windows or tables; and within one
+dataset the table is used rather than the window values next to it.  (True of the source since fix b660cc4; before,
+tables inside the functional groups were ignored.) -/
+theorem frame_voi_lut_over_shared {l w} (image shared : Option l × Option w) (perFrame : List (Option l × Option w))
+    (f : Nat) (x : l) (win : Option w) (h : perFrame[f]? = some (some x, win)) :
+    (Placed.ofVoi image shared perFrame).find f = some (.inl x, false) := by
+  apply per_frame_over_shared
+  simp [Placed.ofVoi, voiItem, h]
+
+/-- no VOI information in the frame's own group: a shared table (or, failing that, shared window) is used -/
+theorem shared_voi_lut_over_image {l w} (image shared : Option l × Option w) (perFrame : List (Option l × Option w))
+    (f : Nat) (x : l) (hs : shared.1 = some x)
+    (h : perFrame[f]? = none ∨ perFrame[f]? = some (none, none)) :
+    (Placed.ofVoi image shared perFrame).find f = some (.inl x, true) := by
+  apply shared_over_image
+  · rcases h with h | h
+    · left; simp [Placed.ofVoi, h]
+    · right; simp [Placed.ofVoi, voiItem, h]
+  · simp [Placed.ofVoi, voiItem, hs]
+
 /-- **`get_frames` = `get_frame` frame by frame**: the transform built once for frame 0 is reused exactly when
 nothing it contains came from a per-frame item (`applies_to_all_frames`); for images whose functional groups
 are placed uniformly this never changes a frame. -/
 theorem frames_eq_frame {ρ μ ω β} (im : Meta ρ μ ω) (useRw useMod useVoi : Bool) (apply : Found ρ μ ω → Nat → β)
     (n : Nat) (fs : List Nat) (hfs : ∀ f ∈ fs, f < n)
-    (h1 : Uniform im.rwvm n) (h2 : Uniform im.rescale n) (h3 : Uniform im.window n) :
+    (h1 : Uniform im.rwvm n) (h2 : Uniform im.rescale n) (h3 : Uniform im.voi n) :
     getFrames im useRw useMod useVoi apply fs = fs.map (getFrame im useRw useMod useVoi apply) := by
   unfold getFrames
   cases fs with
@@ -857,7 +906,7 @@ theorem frames_eq_frame {ρ μ ω β} (im : Meta ρ μ ω) (useRw useMod useVoi 
 `_get_pixels_by_frame`, whose reusable transform is built for frame 1. -/
 theorem pixels_by_frame_eq_frame {ρ μ ω β} (im : Meta ρ μ ω) (useRw useMod useVoi : Bool) (apply : Found ρ μ ω → Nat → β)
     (n : Nat) (fs : List Nat) (h0 : 0 < n) (hfs : ∀ f ∈ fs, f < n)
-    (h1 : Uniform im.rwvm n) (h2 : Uniform im.rescale n) (h3 : Uniform im.window n) :
+    (h1 : Uniform im.rwvm n) (h2 : Uniform im.rescale n) (h3 : Uniform im.voi n) :
     getPixelsByFrame im useRw useMod useVoi apply fs = fs.map (getFrame im useRw useMod useVoi apply) :=
   getWith_eq im useRw useMod useVoi apply n 0 fs h0 hfs h1 h2 h3
 
